@@ -732,9 +732,11 @@ class C06(Check):
     prop_module = "PoxModel.Properties.C06"
     lean_targets = ["drv_c06"]
     driver = "drv_c06"
-    theorems = ["Pox.C06.single_place", "Pox.C06.caller_blocked", "Pox.C06.no_overlap", "Pox.C06.program_order", "Pox.C06.step_once",
-                "Pox.C06.not_early", "Pox.C06.wake_is_registered", "Pox.C06.isolation", "Pox.C06.finished_never_runs",
-                "Pox.C06.again_return", "Pox.C06.delivery", "Pox.C06.fair_partial", "Pox.C06.timer", "Pox.C06.timer_stopped",
+    theorems = ["Pox.C06.single_place", "Pox.C06.caller_blocked", "Pox.C06.no_overlap", "Pox.C06.pop_leaves_queue", "Pox.C06.program_order",
+                "Pox.C06.step_once", "Pox.C06.not_early", "Pox.C06.wake_is_registered", "Pox.C06.wake_is_requested", "Pox.C06.wake_kept",
+                "Pox.C06.expired_returns", "Pox.C06.no_crash", "Pox.C06.isolation", "Pox.C06.isolation_gen", "Pox.C06.isolation_rf",
+                "Pox.C06.finished_never_runs", "Pox.C06.again_return", "Pox.C06.again_return_gen", "Pox.C06.caller_resumed_next",
+                "Pox.C06.delivery", "Pox.C06.fair_partial", "Pox.C06.timer", "Pox.C06.timer_stopped", "Pox.C06.timer_not_early",
                 "Pox.C06.again_empty_defect", "Pox.C06.send_zero_defect"]
     # function bodies only (a `def` line executes at import time, not during a run); located by name in setup()
     ANCHOR_FUNCS = [("BaseTask", "execute"), ("Scheduler", "fast_schedule"), ("Scheduler", "quit"), ("Scheduler", "run"), ("Scheduler", "cycle"),
@@ -765,28 +767,43 @@ class C06(Check):
                  "'finished tasks never run again' and round-robin order) + differential correspondence of the compiled "
                  "model against the real Scheduler.run() under a virtual clock/select (inline hub: whole run; threaded hub under a forced "
                  "thread scheduler: per-task projections) + independent property oracle on the real code's trace in both hub modes")
-    level_text = ("Theorems single_place/caller_blocked/no_overlap/program_order/step_once/not_early/wake_is_registered/finished_never_runs/"
-                  "timer/timer_stopped hold for every program table, task set, timer set, readiness script and number of loop iterations "
-                  "(unbounded); isolation/again_return/delivery are exact one-cycle statements for every state; fair_partial is the exact "
-                  "round-robin bound for program tables without sub-task calls.  The model is hand-written (inline hub); each run re-checks it "
-                  "against the real scheduler on exhaustive small scopes plus random programs, comparing the full trace (task, step, virtual "
-                  "time, value/exception received, wake time), timer firings, cycle count and final queues.  Threaded hub: the same task "
+    level_text = ("Theorems single_place/caller_blocked/pop_leaves_queue/program_order/step_once/not_early/wake_is_registered/"
+                  "finished_never_runs/timer/timer_stopped/timer_not_early hold for every program table, task set, priorities, sequence of "
+                  "lottery draws, timer set, readiness script and number of loop iterations (unbounded); no_crash additionally assumes a "
+                  "well-formed program table (every Again names an existing program).  not_early covers Sleep, yield n, Select, Recv and Send "
+                  "with a timeout (the event records the raw value the hub handed back, before a Recv/Send return function rewrites it) and "
+                  "timers; timer_not_early bounds the k-th firing of a timer by start + delay + k*interval.  isolation (incl. an uncaught "
+                  "sub-task exception and a raising return function), again_return, caller_resumed_next, delivery, wake_is_requested, "
+                  "wake_kept and expired_returns are exact one- or two-cycle statements for every state; fair_partial is the exact "
+                  "round-robin bound for program tables without sub-task calls and priorities >= 1.  no_overlap holds by construction of "
+                  "the (sequential) model - it documents a modelling decision and is evidence only through the differential run.  The "
+                  "model is hand-written (inline hub); each run re-checks it against the real scheduler on exhaustive small scopes plus "
+                  "random programs - with priorities < 1 and a scripted Scheduler._random, and with every blocking operation constructed in "
+                  "each calling convention its class accepts (fd sets as list/tuple/set/dict view/None, timeout and timeIsAbsolute positional "
+                  "or keyword) - comparing the full trace (task, step, virtual time, value/exception received, raw hub value, wake time), "
+                  "timer firings, cycle count and final queues.  Threaded hub: the same task "
                   "programs run on Scheduler(threaded_selecthub=True) with the scheduler thread and the hub thread under the forced thread "
                   "scheduler (sequential, random and PCT schedules, virtual time); the property oracle judges every run, and for program "
-                  "tables whose outcome cannot depend on the interleaving (no Exit, cancel, scripted sockets or contended descriptors) each "
-                  "task's own sequence of (step, time, value/exception received, wake time) and each timer's firing times must equal the "
-                  "model's.")
+                  "tables whose outcome cannot depend on the interleaving (no Exit, cancel, scripted sockets, contended descriptors or "
+                  "priorities < 1) each task's own sequence of (step, time, value/exception received, wake time) and each timer's firing "
+                  "times must equal the model's.")
     level_note = ("Proved about the model (inline hub), tested for the code: the tie is the differential run.  The threaded hub is covered "
                   "by testing only: the hub's bookkeeping (_select, registerSelect, _return) is the same code in both modes and the theorems "
                   "are about that code's model, but the interleavings of the two threads are sampled (a few schedules per program, switches "
                   "at synchronisation operations only), not proved; what is compared there is the per-task projection, not the global order.  "
                   "Out of scope: real file descriptors (EpollSelect is only compared with select.select on pipes, as plain differential "
-                  "testing), CallBlocking worker threads, locks and statement-level races (C07), the priority<1 lottery.  Not proved (only "
-                  "checked by the oracle on the real code): fairness in the presence of sub-task calls (fair_full is false without a "
-                  "call-depth bound), that a timer's firing time is >= its due time (follows informally from not_early on the timer task's "
-                  "step), liveness ('eventually'), absence of scheduler-internal assertion failures/KeyErrors (the model keeps them as a "
-                  "`crashed` flag; never observed in any run).  Inline-mode fact worth knowing: the hub is polled only when the ready deque "
-                  "is empty, so a task that always yields 0 starves all timed waiters.")
+                  "testing), CallBlocking worker threads, locks and statement-level races (C07).  Limits of what is proved: (1) 'the wake "
+                  "time in a step event is the time the preceding yield asked for' is a chain of one-step theorems (wake_is_requested at "
+                  "the yield, wake_kept while the task waits, delivery at the resume), not a single trace-level theorem; a Send that is "
+                  "re-registered after a partial write restarts its timeout, as the code does; for timers the link is part of the "
+                  "timer_not_early invariant.  (2) expired_returns is about timeouts; the analogue for ready descriptors (a task whose "
+                  "descriptor is ready is returned by that hub pass) is not proved, only checked by the oracle (lost-wakeup rules).  "
+                  "(3) caller_resumed_next needs caller priority >= 1: with priority < 1 the caller sits at the head of the deque but can "
+                  "lose the draw - the code's behaviour; the oracle allows exactly that.  (4) no_crash assumes the program table is "
+                  "well-formed.  Not proved (only checked by the oracle on the real code): fairness in the presence of sub-task calls "
+                  "(fair_full is false without a call-depth bound) or with priorities < 1, liveness ('eventually').  Inline-mode fact "
+                  "worth knowing: the hub is polled only when the ready deque is empty, so a task that always yields 0 starves all timed "
+                  "waiters.")
     rule = ("case = (program table over the yield vocabulary, task list, timers, fd readiness times, socket scripts, start time, cycle budget"
             "[, mode=threaded + schedule (sequential|random|PCT, seed)]); corpus = 13 hand-written scenarios + exhaustive scopes (every "
             "assignment of programs of <= L yields over an alphabet to N ordered tasks) + the threaded scenarios x 6 schedules + two threaded "
